@@ -71,6 +71,27 @@ def _object_dispatch(ck, fx):
             e["k"] == "arm" for e in p["eff"])
         why_c = "delegates to the parent pointer: %s, same name: %s, same arguments: %s" % (parent_ok, a[3] == ("var", "method_name"), a[4] == ("var", "argument_pointers"))
     ck.ob("R14.dispatch", "object|missing method → parent (same name, same arguments)", ok_c, "", why_c)
+    # … and ONLY a missing method: on no path is the call handed to the parent although the receiver's own table has an
+    # entry under the call's name. A member hides whatever its ancestors define under that name — whatever its
+    # parameter count or kind (the argument-count check then fails the call; it never selects between candidates).
+    passed_over = []
+    for p, evs, dp in delegated:
+        for e in V._all_effects(p["eff"]):
+            if e["k"] == "call" and V.suffix(e) in ("get", "get_mut", "contains_key", "get_index_of", "get_full") and len(e["args"]) > 2 and "'methods'" in fmt_term(e["args"][1]):
+                res = e.get("res")
+                if res is None:
+                    continue
+                for a in p["eff"]:
+                    hit = (a["k"] == "assume_ok" and a["args"][0] == res) or (
+                        a["k"] == "assume" and a["args"][0] in (res, ("app", "is_some", (res,))) and a["args"][1] == TRUE) or (
+                        a["k"] == "assume" and a["args"][0] == ("app", "is_none", (res,)) and a["args"][1] == FALSE)
+                    if hit:
+                        others = [fmt_term(x["args"][0])[:140] for x in p["eff"] if x["k"] == "assume" and V.mentions(x["args"][0], res) and x is not a]
+                        passed_over.append("; ".join(others) or "(no further condition)")
+                        break
+    ck.ob("R14.dispatch", "object|a member of that name is never passed over", not passed_over, "",
+          "the parent is asked only when the receiver's method table has no entry under the call's name (%d delegating path(s))" % len(delegated) if not passed_over else
+          "the call is handed to the parent although the receiver HAS a member of that name, when: %s — the member no longer hides the inherited method" % " | ".join(sorted(set(passed_over))[:3]))
     # (b) end of chain fails
     ok_b = any(any(e["k"] == "assume" and "is_variant(" in fmt_term(e["args"][0]) and "'Null'" in fmt_term(e["args"][0]) and e["args"][1] == TRUE for e in p["eff"]) for p, evs in failed)
     ck.ob("R14.dispatch", "object|missing method and null parent → failure", ok_b, "", "a failing path for `parent is null` exists: %s" % ok_b)
